@@ -2,6 +2,7 @@ package main
 
 import (
 	"fmt"
+	"go/token"
 	"os"
 	"strings"
 
@@ -12,6 +13,18 @@ import (
 func init() {
 	registry["DEBUG"] = func(c *Ctx) {
 		p := c.Prog("amd64")
+		if os.Getenv("DBGINNER") != "" {
+			surveyInnerPtr(p)
+		}
+		if os.Getenv("DBGAPPENDF") != "" {
+			surveyAppendField(p)
+		}
+		if os.Getenv("DBGAPPEND") != "" {
+			surveyAppend(p)
+		}
+		if os.Getenv("DBGALIAS") != "" {
+			surveyAlias(p)
+		}
 		parts := strings.Split(os.Getenv("DBG"), "|")
 		f := p.Func(parts[0], parts[1], parts[2])
 		if f == nil {
@@ -103,5 +116,135 @@ func init() {
 			fmt.Printf("  sites %s: %v\n", k, v)
 		}
 		c.ok("DEBUG", "x", "", "")
+	}
+}
+
+// surveyAlias: decoders that keep a sub-slice of a byte-slice parameter in a field.
+func surveyAlias(p *Program) {
+	for f := range p.AllFuncs {
+		if f.Blocks == nil || !isCirclFunc(f) || f.Synthetic != "" {
+			continue
+		}
+		n := f.Name()
+		if !(strings.HasPrefix(n, "Unmarshal") || strings.HasPrefix(n, "unmarshal") || strings.HasPrefix(n, "Unpack") || strings.HasPrefix(n, "Import") || strings.HasPrefix(n, "SetBytes") || strings.HasPrefix(n, "FromBytes")) {
+			continue
+		}
+		for _, b := range f.Blocks {
+			for _, in := range b.Instrs {
+				switch x := in.(type) {
+				case *ssa.Store:
+					if _, ok := x.Addr.(*ssa.FieldAddr); !ok {
+						continue
+					}
+					if rp := rootParam(x.Val); rp != nil && sliceLike(rp.Type()) {
+						fmt.Printf("ALIAS %s: %s keeps %s in %s\n", p.pos(x.Pos()), fname(f), descVal(x.Val), descAddr(x.Addr))
+					}
+				case *ssa.Call:
+					cn := p.staticCalleeName(&x.Call)
+					if strings.Contains(cn, "cryptobyte.String).ReadBytes") || strings.Contains(cn, "cryptobyte.String).ReadUint16LengthPrefixed") || strings.Contains(cn, "cryptobyte.String).ReadUint8LengthPrefixed") {
+						fmt.Printf("ALIAS-CB %s: %s: %s into %s\n", p.pos(x.Pos()), fname(f), cn, descVal(x.Call.Args[len(x.Call.Args)-2]))
+					}
+				}
+			}
+		}
+	}
+}
+
+// surveyAppend: appends whose destination is (a view of) a slice parameter.
+func surveyAppend(p *Program) {
+	for f := range p.AllFuncs {
+		if f.Blocks == nil || !isCirclFunc(f) || f.Synthetic != "" {
+			continue
+		}
+		for _, b := range f.Blocks {
+			for _, in := range b.Instrs {
+				call, ok := in.(*ssa.Call)
+				if !ok {
+					continue
+				}
+				bi, ok := call.Call.Value.(*ssa.Builtin)
+				if !ok || bi.Name() != "append" || len(call.Call.Args) < 1 {
+					continue
+				}
+				if rp := sliceRootParam(call.Call.Args[0]); rp != nil {
+					fmt.Printf("APPEND %s: %s: append(%s, ...) param %s\n", p.pos(call.Pos()), fname(f), descVal(call.Call.Args[0]), rp.Name())
+				}
+			}
+		}
+	}
+}
+
+// surveyInnerPtr: methods that store the address of one of the receiver's fields into another object.
+func surveyInnerPtr(p *Program) {
+	for f := range p.AllFuncs {
+		if f.Blocks == nil || !isCirclFunc(f) || f.Synthetic != "" || f.Signature.Recv() == nil {
+			continue
+		}
+		for _, b := range f.Blocks {
+			for _, in := range b.Instrs {
+				st, ok := in.(*ssa.Store)
+				if !ok {
+					continue
+				}
+				fa, ok := st.Val.(*ssa.FieldAddr)
+				if !ok || paramRoot(f, fa.X) != 0 {
+					continue
+				}
+				if _, isParam := fa.X.(*ssa.Parameter); !isParam {
+					continue
+				}
+				// stored into something that is not the receiver itself
+				if base, _ := memRoot(st.Addr); base != nil {
+					if _, isAlloc := base.(*ssa.Alloc); isAlloc {
+						fmt.Printf("INNERPTR %s: %s stores &recv.%s into %s\n", p.pos(st.Pos()), fname(f), fieldName(fa), descAddr(st.Addr))
+					}
+				}
+			}
+		}
+	}
+}
+
+func surveyAppendField(p *Program) {
+	for f := range p.AllFuncs {
+		if f.Blocks == nil || !isCirclFunc(f) || f.Synthetic != "" {
+			continue
+		}
+		for _, b := range f.Blocks {
+			for _, in := range b.Instrs {
+				call, ok := in.(*ssa.Call)
+				if !ok {
+					continue
+				}
+				bi, ok := call.Call.Value.(*ssa.Builtin)
+				if !ok || bi.Name() != "append" || len(call.Call.Args) < 1 {
+					continue
+				}
+				v := call.Call.Args[0]
+				for {
+					if s, ok := v.(*ssa.Slice); ok {
+						v = s.X
+						continue
+					}
+					break
+				}
+				ld, ok := v.(*ssa.UnOp)
+				if !ok || ld.Op != token.MUL {
+					continue
+				}
+				fa, ok := ld.X.(*ssa.FieldAddr)
+				if !ok {
+					continue
+				}
+				back := false
+				for _, r := range *call.Referrers() {
+					if st, ok := r.(*ssa.Store); ok {
+						if fa2, ok := st.Addr.(*ssa.FieldAddr); ok && fa2.Field == fa.Field && descAddr(fa2) == descAddr(fa) {
+							back = true
+						}
+					}
+				}
+				fmt.Printf("APPENDFIELD back=%v %s: %s: append(%s, ...)\n", back, p.pos(call.Pos()), fname(f), descVal(call.Call.Args[0]))
+			}
+		}
 	}
 }
